@@ -97,7 +97,7 @@ class Conform:
         if not ch:
             return 'empty node'
         if t == 'param':
-            return None  # checked through its parent (flattened back)
+            return self.check_param(n)
         if len(ch) == 1 and n is not root:
             return 'single-child node not collapsed'
         if t not in ref.rules:
@@ -138,6 +138,37 @@ class Conform:
             return None if self.accepts(lst, inner) else '%s mismatch' % lst
         ok = self.accepts(t, ch, allow_eof_newline=(t == 'simple_stmt' and at_eof(n, self.relaxed)))
         return None if ok else '%s mismatch' % t
+
+    def check_param(self, n):
+        """the documented grouping: one parameter = ['*' | '**'] (name | tfpdef) ['=' default] [','];
+        a bare '*' and the positional-only marker '/' (with their commas) stay outside of param nodes"""
+        ch = list(n.children)
+        i = 0
+        if ch and ch[0].type == 'operator' and ch[0].value in ('*', '**'):
+            i = 1
+        if i >= len(ch):
+            return 'param without a name'
+        c = ch[i]
+        if c.type == 'name':
+            pass
+        elif c.type == 'tfpdef':
+            k = c.children
+            if not (len(k) == 3 and k[0].type == 'name' and k[1].type == 'operator' and k[1].value == ':'):
+                return 'param: malformed tfpdef'
+        else:
+            return 'param does not start with a name'
+        i += 1
+        if i < len(ch) and ch[i].type == 'operator' and ch[i].value == '=':
+            if i + 1 >= len(ch) or (ch[i + 1].type == 'operator' and ch[i + 1].value == ','):
+                return 'param: default missing'
+            i += 2
+        if i < len(ch) and ch[i].type == 'operator' and ch[i].value == ',':
+            i += 1
+        if i != len(ch):
+            return 'param with extra children'
+        if n.parent is None or n.parent.type not in ('parameters', 'lambdef'):
+            return 'param outside parameters/lambdef'
+        return None
 
     def error_placement(self, n):
         """errors may only occur where a statement or block is expected"""
